@@ -54,7 +54,7 @@ def entry_points(model):
         if mname in ("pygaps.parsing.json", "pygaps.parsing.csv", "pygaps.parsing.excel", "pygaps.parsing.aif"):
             eps += [f for n, f in m.functions.items() if n.startswith("isotherm_to_")]
         if mname == "pygaps.parsing.sqlite":
-            eps += [f for n, f in m.functions.items() if n == "isotherm_to_db"]
+            eps += [f for n, f in m.functions.items() if n in ("isotherm_to_db", "adsorbate_to_db", "material_to_db")]
     for q in ISO_CLASSES:
         c = model.cls(q)
         for n, f in c.methods.items():
